@@ -312,8 +312,12 @@ def relock(only=None):
         led = json.load(open(LEDGER))
         pref = {"lemma": "lemma:", "static": "static:", "step": "step:", "roundtrip": "roundtrip:", "contract": ""}
         items = [(k, n) for k, n in items if pref[k] + n in only or n in only]
+    os.environ["PYVC_DEEP_COVERS"] = "1"  # the ledger is built with the instantiated non-vacuity check on every path
     results = run_items(items, limit_s=1500)
     for r in results:
+        if r.get("paths_infeasible_after_instantiation"):
+            print(f"NOTE {r['contract']}: {r['paths_infeasible_after_instantiation']} path(s) infeasible only after instantiation "
+                  "(legitimate when a branch contradicts a quantified precondition; otherwise look for an unsound hypothesis)")
         led[r["contract"]] = {"status": r["status"], "obligations": sorted({o["label"] for o in r["obligations"]}), "vcs": len(r["obligations"])}
     json.dump(led, open(LEDGER, "w"), indent=1, sort_keys=True)
     return led
